@@ -265,7 +265,7 @@ def run(ctx):
         ctx.check(ok, RP, "decode_blocks::checksum-read-4-accounted-4", hb["file"], "checksum: 4 bytes read, 4 accounted", observed=ln)
         # each update directly follows its read (no early exit between that would lose the count is impossible: errors abort the frame)
         st = ctx.hir(FDS + "::new")
-        pvs = hq.Canon(st, inline=True, max_depth=4, force=True)
+        pvs = hq.Canon(st, inline=True, max_depth=4, force=True, helpers=True)
         lit = hq.struct_lits(st["body"], "FrameDecoderState")
         v = {x["name"]: pvs(x["e"]) for x in lit[0]["fields"]}.get("bytes_read_counter") if lit else None
         ctx.check(v is not None and "read_frame_header($0)?.1" in v, RP, "state::counter-starts-at-header-size", st["file"],
@@ -297,6 +297,43 @@ def run(ctx):
             vals = [H.show(hq.peel(x["r"])) for x in hq.find(b["body"], lambda x: x.get("k") == "Assign" and hq.field_chain(x["l"])[1][-1:] == ["frame_finished"])]
             vals += [H.show(hq.peel(f["e"])) for l in hq.struct_lits(b["body"], "FrameDecoderState") for f in l["fields"] if f["name"] == "frame_finished"]
             ctx.check(vals == ["false"], RF, H.short(fn) + "::starts-unfinished", b["file"], "a new frame starts unfinished", observed=vals)
+        # "finished" for a checksummed frame additionally needs the checksum read: sound only if the stored checksum
+        # starts absent on every frame and is set nowhere but after reading this frame's 4 checksum bytes
+        isf = ctx.hir(FD + "::is_finished")
+        iix = hq.Index(isf)
+        t = hq.peel(hq.tail_expr(isf["body"]) or {})
+        ok = False
+        shape = None
+        if t.get("k") == "If":
+            shape = (iix.canon(t["cond"]), iix.canon(hq.tail_expr(t["then"]) or t["then"]), iix.canon(hq.tail_expr(t["else"]) or t["else"]))
+            import re
+            m = re.search(r"::content_checksum_flag\((.+)\.frame_header\.descriptor\)$", shape[0])
+            st_ = m.group(1) if m else "?"
+            ok = m is not None and shape[2] == st_ + ".frame_finished" and \
+                set(shape[1][1:-1].split(" && ")) == {st_ + ".frame_finished", "core::option::Option::is_some(%s.check_sum)" % st_}
+        ctx.check(ok, RF, "is_finished::needs-checksum-when-flagged", isf["file"],
+                  "is_finished = frame_finished, and for frames with the checksum flag also check_sum.is_some()", observed=shape)
+        w = dom.field_writers(ctx, FDS + ".check_sum")
+        ctx.check(set(w) == allowed, RF, "check_sum::writers", "", "writers of the stored checksum", observed=sorted(w), expected=sorted(allowed))
+        nb = ctx.hir(FDS + "::new")
+        v = [hq.Canon(nb)(f["e"]) for l in hq.struct_lits(nb["body"], "FrameDecoderState") for f in l["fields"] if f["name"] == "check_sum"]
+        ctx.check(v == ["core::option::Option::None"], RF, "FrameDecoderState::new::checksum-starts-absent", nb["file"],
+                  "a new frame starts with no checksum read", observed=v)
+        rb = ctx.hir(FDS + "::reset")
+        tops = [hq.peel(x.get("e") or {}) for x in hq.top_statements(rb["body"])]
+        v = [hq.Canon(rb)(x["r"]) for x in tops if x.get("k") == "Assign" and hq.field_chain(x["l"])[1][-1:] == ["check_sum"]]
+        ctx.check(v == ["core::option::Option::None"], RF, "FrameDecoderState::reset::checksum-starts-absent", rb["file"],
+                  "reset() must unconditionally clear the previous frame's checksum, or a truncated checksummed frame "
+                  "reports finished", observed=v)
+        for fn in ("decode_blocks", "decode_from_to"):
+            b = ctx.hir(FD + "::" + fn)
+            ix = hq.Index(b)
+            pv = hq.Canon(b, inline=True, max_depth=4, force=True)
+            a = [x for x in hq.find(b["body"], lambda x: x.get("k") == "Assign" and hq.field_chain(x["l"])[1][-1:] == ["check_sum"])]
+            vals = [pv(x["r"]) for x in a]
+            ok = len(a) >= 1 and all(v.startswith("core::option::Option::Some(") and "from_le_bytes(" in v for v in vals)
+            ctx.check(ok, RF, fn + "::checksum-set-from-read-bytes", b["file"],
+                      "check_sum = Some(_) only with the little-endian value of the 4 bytes just read", observed=vals)
     ctx.guard(RF, "finished", finished)
 
     RM = "C10.multi"
